@@ -401,8 +401,17 @@ func (d *csDirector) intent(maxBits, blockNo int) (rig.Tx, bool) {
 			inD = denom
 			outD = d.denoms[rng.Intn(len(d.denoms))]
 			if outD == inD {
-				outD = d.denoms[(rng.Intn(2)+1+indexOf(d.denoms, inD))%len(d.denoms)]
+				if rng.Intn(3) == 0 {
+					// hostile: an order that buys what it sells; if the chain takes it, it is two legs through one pool and
+					// each leg is judged on the reserves it met
+					tag.Hop = "same-denom"
+				} else {
+					outD = d.denoms[(rng.Intn(2)+1+indexOf(d.denoms, inD))%len(d.denoms)]
+				}
 			}
+		} else if rng.Intn(40) == 0 {
+			tag.Hop = "same-denom"
+			inD, outD = d.std, d.std
 		} else {
 			tag.Hop = "single"
 			if rng.Intn(2) == 0 {
